@@ -155,7 +155,7 @@ def run_coq_file(path, timeout=600):
     return p.returncode, p.stdout, p.stderr
 
 
-def run_coq_shards(name, header, case_terms, evaluator, shard=300, timeout=900):
+def run_coq_shards(name, header, case_terms, evaluator, shard=300, timeout=900, ctype=None):
     """Write shards `<name>_<k>.v`, each defining `cases` and evaluating
     `evaluator cases` (which must return the list of indices, as nat or Z, of
     the cases on which model and implementation differ).  Returns
@@ -166,7 +166,7 @@ def run_coq_shards(name, header, case_terms, evaluator, shard=300, timeout=900):
         path = os.path.join(CORR, '%s_%d.v' % (name, k // shard))
         with open(path, 'w') as f:
             f.write(header + '\n')
-            f.write('Definition cases := [\n' + ';\n'.join(case_terms[k:k + shard]) + '\n].\n')
+            f.write('Definition cases%s := [\n' % ((' : list (%s)' % ctype) if ctype else '') + ';\n'.join(case_terms[k:k + shard]) + '\n].\n')
             f.write('Eval vm_compute in (%s cases).\n' % evaluator)
         files.append((k, path))
     mism, errors = [], []
